@@ -1090,7 +1090,7 @@ rrul_fill_yly(echs_instant_t *restrict tgt, size_t nti, rrulsp_t rr)
 			for (bitint_iter_t all = 0UL;
 			     res < nti && (yd = bi383_next(&all, &cand[(iy != 0) << (iy > 0)]), all);) {
 				for (ENUM_INIT(e, iS, iM, iH);
-				     ENUM_COND(e, iS, iM, iH);
+				     res < nti && ENUM_COND(e, iS, iM, iH);
 				     ENUM_ITER(e, iS, iM, iH)) {
 					echs_instant_t x = {
 						.y = y + iy,
@@ -1262,7 +1262,7 @@ rrul_fill_mly(echs_instant_t *restrict tgt, size_t nti, rrulsp_t rr)
 			for (bitint_iter_t all = 0UL;
 			     res < nti && (yd = bi383_next(&all, &cand[(iy != 0) << (iy > 0)]), all);) {
 				for (ENUM_INIT(e, iS, iM, iH);
-				     ENUM_COND(e, iS, iM, iH);
+				     res < nti && ENUM_COND(e, iS, iM, iH);
 				     ENUM_ITER(e, iS, iM, iH)) {
 					echs_instant_t x = {
 						.y = y + iy,
@@ -1408,7 +1408,7 @@ rrul_fill_wly(echs_instant_t *restrict tgt, size_t nti, rrulsp_t rr)
 			}
 
 			for (ENUM_INIT(e, iS, iM, iH);
-			     ENUM_COND(e, iS, iM, iH);
+			     res < nti && ENUM_COND(e, iS, iM, iH);
 			     ENUM_ITER(e, iS, iM, iH)) {
 				echs_instant_t x = {
 					.y = this_y,
@@ -1564,7 +1564,8 @@ rrul_fill_dly(echs_instant_t *restrict tgt, size_t nti, rrulsp_t rr)
 		}
 
 		for (ENUM_INIT(e, iS, iM, iH);
-		     ENUM_COND(e, iS, iM, iH); ENUM_ITER(e, iS, iM, iH)) {
+		     res < nti && ENUM_COND(e, iS, iM, iH);
+		     ENUM_ITER(e, iS, iM, iH)) {
 			echs_instant_t x = {
 				.y = y,
 				.m = m,
@@ -1745,7 +1746,7 @@ rrul_fill_Hly(echs_instant_t *restrict tgt, size_t nti, rrulsp_t rr)
 
 	bang:
 		for (ENUM_INIT(e, iS, iM);
-		     ENUM_COND(e, iS, iM); ENUM_ITER(e, iS, iM)) {
+		     res < nti && ENUM_COND(e, iS, iM); ENUM_ITER(e, iS, iM)) {
 			echs_instant_t x = {
 				.y = y,
 				.m = m,
@@ -1927,7 +1928,8 @@ rrul_fill_Mly(echs_instant_t *restrict tgt, size_t nti, rrulsp_t rr)
 			continue;
 		}
 
-		for (ENUM_INIT(e, iS); ENUM_COND(e, iS); ENUM_ITER(e, iS)) {
+		for (ENUM_INIT(e, iS); res < nti && ENUM_COND(e, iS);
+		     ENUM_ITER(e, iS)) {
 			echs_instant_t x = {
 				.y = y,
 				.m = m,
